@@ -59,7 +59,7 @@ func gateOfPc(pc string) string {
 		return pc
 	case "waitlog", "refreshlog", "buildlog", "warnlog":
 		return "log:" + pc
-	case "refreshstat", "failstat", "buildstat":
+	case "refreshstat", "failstat", "buildstat", "changestat":
 		return "stat:" + pc
 	}
 
@@ -109,8 +109,9 @@ func (r *foRun) snapshot() foSnapJ {
 		sn.Met["build"] = r.stat.Total(cache.MetricBuild, foName)
 		sn.Met["failed"] = r.stat.Total(cache.MetricFailed, foName)
 		sn.Met["refreshed"] = r.stat.Total(cache.MetricRefreshed, foName)
+		sn.Met["changed"] = r.stat.Total(cache.MetricChanged, foName)
 	} else {
-		sn.Met["build"], sn.Met["failed"], sn.Met["refreshed"] = 0, 0, 0
+		sn.Met["build"], sn.Met["failed"], sn.Met["refreshed"], sn.Met["changed"] = 0, 0, 0, 0
 	}
 
 	return sn
@@ -367,7 +368,7 @@ func (r *foRun) exec(b []foStepJ) {
 				}
 			}
 
-			r.s.release(f.P, gcmd{fault: f.Out == "beerr" || f.Out == "fault", ok: f.Out != "fail", ttl: f.Arg})
+			r.s.release(f.P, gcmd{fault: f.Out == "beerr" || f.Out == "fault", ok: f.Out != "fail", same: f.Out == "same", ttl: f.Arg})
 		}
 
 		synctest.Wait()
@@ -739,6 +740,14 @@ func runFoWalk(t *testing.T, cfg FoCfg, wi int, seed int64, maxFaults, maxFails,
 					}
 
 					c.ttl = []int{0, 0, 1, 3}[rng.Intn(4)]
+
+					s.mu.Lock()
+					_, hasExp := s.lastExp[ch.p]
+					s.mu.Unlock()
+
+					if c.ok && cfg.Mutability && hasExp && rng.Intn(3) == 0 {
+						c.same = true
+					}
 				case "beRead", "beWrite":
 					if faults < maxFaults && rng.Intn(5) == 0 {
 						c.fault = true
